@@ -68,18 +68,30 @@ def shards(tier, seed):
     return [{"sw_range": [i * per, (i + 1) * per], "shard": i, "n": nsh} for i in range(nsh)]
 
 
+PRELUDES = ["advance.nobrothers", "updateAncestor", "sign.hash", "state", "advance.brothers",
+            "getPubKey"]
+
+
 def in_range(sw):
     return 0x69A0 <= sw <= 0x6BFF or sw == 0x6D00
 
 
-def run_cell(shape, plan, prep=None, iodebug=False):
-    """fresh stack, bring-up, arm the plan, run the request"""
+def run_cell(shape, plan, prep=None, iodebug=False, prelude=None):
+    """fresh stack, bring-up, (prelude: another command served first, successfully, by the
+    same manager), arm the plan, run the request"""
     from ..stack import Stack
-    dev = fl.make_device(shape)
+    dev = fl.make_device(shape, also=[prelude] if prelude else ())
     if prep:
         prep(dev)
     with Stack(dev, version_one=shape.v1, iodebug=iodebug) as s:
         s.initialize()
+        if prelude is not None:
+            if prelude.post:
+                prelude.post(dev)
+            s.request(prelude.request)
+            dev.adv_policy = {}
+            dev.mode = 0x03
+            del s.bus.events[:]
         if shape.post:
             shape.post(dev)
         s.bus.arm(plan)
@@ -171,11 +183,20 @@ def check_cell(acc, shape, v1, k, role, fault, allowed, base_reply, named, by_sr
     iodebug = (k + (fault.sw or 0) + len(fault.kind)) % 5 == 0
     if iodebug:
         acc.count("cells_with_iodebug_on")
-    reply, exc, apdus, dev, out = run_cell(shape, {k: fault}, iodebug=iodebug)
+    # one cell in four after another command was served by the same manager (what the
+    # manager keeps between requests may not change the mapping)
+    prelude = None
+    if not v1 and (k * 7 + (fault.sw or 0) * 3 + len(fault.kind)) % 4 == 0:
+        names = [n for n in PRELUDES if n != shape.name]
+        prelude = [x for x in fl.shapes(False)
+                   if x.name == names[((fault.sw or 0) + k) % len(names)]][0]
+        acc.count("cells_after_another_command")
+    reply, exc, apdus, dev, out = run_cell(shape, {k: fault}, iodebug=iodebug, prelude=prelude)
     acc.evaluations += 1
     acc.distinct_disjoint += 1
     case = {"shape": shape.name, "v1": v1, "k": k, "role": role,
-            "fault": [fault.kind, fault.sw, fault.n, fault.processed]}
+            "fault": [fault.kind, fault.sw, fault.n, fault.processed],
+            "prelude": prelude.name if prelude else None}
     kind = fault.kind
     sw = fault.sw
 
